@@ -7,7 +7,9 @@ array stored in / pushed onto another array, element extraction, nested indexed 
 `a[0][0] get v`, nested `a[0].push(v)`, reverse at both levels, pop; numbers or fresh strings as
 elements; optionally inside a loop iteration so that a frame reset separates copy and mutation)
 and of the `arrayfn` profile (an array passed to a function that mutates its parameter and
-returns it).  Binding (R): every program runs with hooks on; the environment projection - ALL live
+returns it), and of the `arraycases` families (recursion with in-place mutation of a local / parameter
+array in several live activations; an array of run-time-computed strings shared with a callee that
+changes the caller's array and then re-allocates).  Binding (R): every program runs with hooks on; the environment projection - ALL live
 variables with their full contents after EVERY statement - must equal the reference, so "every
 other name unchanged" is checked for every mutation, not only for what is printed."""
 import common
@@ -27,8 +29,9 @@ def run(tier):
     common.build_harness()
     v = common.Verdict("C05", tier, "model_checking")
     tally = le.Tally()
-    for module, env in profiles(tier):
-        r = le.generate(module, env=env, timeout=2400)
+    for module, env in profiles(tier) + [("GenArrCases", {})]:
+        r = le.generate(module, env=env, timeout=2400, cfg="lang/GenArrCases.cfg" if module == "GenArrCases" else "lang/MCGen.cfg",
+                        coverage=module != "GenArrCases")
         tally.add_tlc(module + ":" + env.get("ARRTY", "") + env.get("ARRLOOP", ""), r)
         judged = le.replay(r.records, modes=["nn", "fn", "fp"], ev=3, compare_events=True)
         tally.add(judged)
